@@ -253,7 +253,7 @@ def r5_loop_variable_coherence(ctx):
       for n in common.walk_no_nested(f.node):
         if isinstance(n, ast.Assign) and isinstance(n.value, ast.Call) and common.call_name(n.value).endswith('GraphInfo') and any(k in ast.unparse(n.value) for k in ('.tensors',)):
           inside = any(x is n for x in ast.walk(l))
-          if ast.unparse(n.value.args[0]).startswith(var + '.'):
+          if n.value.args and ast.unparse(n.value.args[0]).startswith(var + '.'):
             ctx.check(R, inside, n, f, n, 'GraphInfo built once outside the subgraph loop')
   if n_loops < 5:
     raise index.AnalysisError(f'{R}: only {n_loops} loops over subgraphs found')
